@@ -775,6 +775,20 @@ String XdlEncoder::encode(const Var& v, Json::Mode mode)
 }
 
 
+// a class name can be written in front of '{' only if the decoder reads it back as a class name
+static bool isClassName(const Var& v)
+{
+	if (!v.is(Var::STRING))
+		return false;
+	const char* s = *v;
+	if (!((myisalnum(*s) && !(*s >= '0' && *s <= '9')) || *s == '_' || *s == '$'))
+		return false;
+	for (const char* p = s + 1; *p; p++)
+		if (!myisalnum(*p) && *p != '_' && *p != '.')
+			return false;
+	return strcmp(s, "Y") != 0 && strcmp(s, "N") != 0 && strcmp(s, "true") != 0 && strcmp(s, "false") != 0 && strcmp(s, "null") != 0;
+}
+
 void XdlEncoder::_encode(const Var& v)
 {
 	switch(v._type)
@@ -840,6 +854,8 @@ void XdlEncoder::_encode(const Var& v)
 		if (!_json)
 		{
 			cname = v.getp(ASL_XDLCLASS);
+			if (cname && !isClassName(*cname))
+				cname = 0; // written as an ordinary property
 			begin_object(cname ? **cname : "");
 		}
 		else
